@@ -158,7 +158,7 @@ func keyRun(prop, tier string, c Case, w *Worker) (res Result) {
 	}
 	msg := genContent([]int{3000 + int(c.Seed%500), 0, 65536, 1<<20 + 1, 1}[int(c.Seed/7)%5], "text", c.Seed)
 	// the string variants carry embedded headers: from a couple of hundred bytes to beyond every chunk size of the codecs (64 KiB age chunks)
-	str := "embedded header " + string(genContent([]int{200, 65520, 65521, 200000, 1 << 20}[int(c.Seed/11)%5], "text", c.Seed+9))
+	str := "embedded header\nsecond line \r\nthird\tline\x00\xff \n" + string(genContent([]int{200, 65520, 65521, 200000, 1 << 20}[int(c.Seed/11)%5], "text", c.Seed+9))
 	res.setAdd("string_sizes", fmt.Sprint(len(str)))
 	if p.Role == "enc" {
 		rcp1, err := keys.ParseRecipient(p.Format, k1.pub)
